@@ -43,7 +43,8 @@ def floors(tier):
           'ev:site_pose': 300 * k, 'ev:jointed_body_pose': 500 * k,
           'ev:inertia_matrix': 300 * k, 'mode:pos': 30 * k, 'mode:quat': 30 * k,
           'mode:both': 30 * k, 'mode:none': 30 * k, 'depth3_chains': 10 * k,
-          'host:world': 30 * k, 'host:jointed': 30 * k}
+          'host:world': 30 * k, 'host:jointed': 30 * k,
+          'cancelling_child_pos': 10 * k, 'cancelling_child_quat': 2 * k}
 
 
 def add_static(rng, root, mon):
@@ -73,8 +74,26 @@ def add_static(rng, root, mon):
         attrs['pos'] = gen.fmt(rng.uniform(-0.5, 0.5, 3))
       if mode in ('quat', 'both'):
         attrs['quat'] = gen.fmt(gen.rquat(rng))
+      # special values: axis-aligned half turns as wrapper rotation
+      half_turn = None
+      if mode in ('quat', 'both') and rng.random() < 0.2:
+        half_turn = [[0., 1, 0, 0], [0., 0, 1, 0], [0., 0, 0, 1]][
+            int(rng.integers(3))]
+        attrs['quat'] = gen.fmt(half_turn)
       sb = ET.SubElement(cur, 'body', attrs)
       off = {'contype': '0', 'conaffinity': '0'}
+      if rng.random() < 0.3:
+        # a child whose own pos / quat exactly cancels the wrapper's, so the
+        # composed value is exactly the default (0 0 0 / 1 0 0 0)
+        ca = dict(name='sc%d' % k, type='box', size='0.04 0.05 0.06',
+                  mass='0.25', **off)
+        if 'pos' in attrs and mode == 'pos':
+          ca['pos'] = gen.fmt(-np.fromstring(attrs['pos'], sep=' '))
+          mon.count('cancelling_child_pos')
+        if half_turn is not None and mode == 'quat':
+          ca['quat'] = gen.fmt([half_turn[0]] + [-v for v in half_turn[1:]])
+          mon.count('cancelling_child_quat')
+        ET.SubElement(sb, 'geom', ca)
       ET.SubElement(sb, 'geom', dict(
           name='sg%d' % k, type='box', size='0.05 0.06 0.07',
           pos=gen.fmt(rng.uniform(-.3, .3, 3)), quat=gen.fmt(gen.rquat(rng)),
